@@ -127,8 +127,8 @@ def canon(v):  # pylint: disable=too-many-return-statements,too-many-branches
     if isinstance(v, dict):
         return {"__dict__": {str(canon(k)) if not isinstance(k, str) else k: canon(x) for k, x in v.items()}}
     cname = type(v).__name__
-    if cname == "ColorMap":  # the colour table itself (its file name is an attribute of the ColorMap object, not of the type)
-        return canon(getattr(v, "_values", None))
+    if cname == "ColorMap":  # table and name
+        return ["cmap", canon(getattr(v, "name", None)), canon(getattr(v, "_values", None))]
     if cname == "ReferenceValueMap":
         return canon(dict(v.map))
     if cname.endswith("ImageFile") or cname == "Image" or (hasattr(v, "tobytes") and hasattr(v, "mode") and hasattr(v, "getpixel")):
@@ -185,6 +185,13 @@ def normalise(cls_name, attr, value):
             return ET.canonicalize(value, strip_text=True)
         except ET.ParseError:
             return value
+    if attr == "color_map" and isinstance(value, dict) and "values" in value:
+        return ["cmap", value.get("name", "geoh5py_custom.TBL"), canon(value["values"])]
+    if attr == "color_map" and isinstance(value, np.ndarray):
+        return ["cmap", "geoh5py_custom.TBL", canon(value)]
+    if cls_name == "ColorMap" and attr == "values" and isinstance(value, np.ndarray) and value.ndim == 2 \
+            and value.shape[0] == 5 and value.shape[1] != 5:
+        return value.T  # getter (5, n) vs setter (n, 5)
     return value
 
 
@@ -274,6 +281,31 @@ def discover():
     add("dtype", data.DataType, "REFERENCED")
     add("pg", PropertyGroup)
     add("header", Workspace)
+    # value objects held by a data type: every class of geoh5py.data that is neither an entity nor a type but has
+    # assignable properties (ColorMap, ReferenceValueMap)
+    import importlib
+    import pkgutil
+    seen = set()
+    for mod in sorted(m.name for m in pkgutil.iter_modules(data.__path__)):
+        module = importlib.import_module(f"geoh5py.data.{mod}")
+        for n in sorted(vars(module)):
+            c = getattr(module, n)
+            if not (inspect.isclass(c) and c.__module__ == module.__name__) or c in seen:
+                continue
+            seen.add(c)
+            if issubclass(c, (Entity, enum.Enum, data.DataType)) or n.endswith("Constants") or not _setters(c):
+                continue
+            kind = {"ColorMap": "cmap", "ReferenceValueMap": "vmap"}.get(c.__name__)
+            if kind:
+                add(kind, c)
+            else:
+                targets.append({"kind": "valueobject", "cls": c.__name__, "variant": None, "attrs": sorted(_setters(c)),
+                                "left_out": {}, "stored_as": {}, "defined_in": _setters(c)})
+    # the same classes stored the other way: a drillhole of a DrillholeGroup and its data live in concatenated tables
+    # (shared/concatenation): every attribute takes another write path (Concatenator.update_attributes)
+    add("object", objects.Drillhole, "concatenated")
+    add("data", data.TextData, "concatenated")
+    add("data", data.FloatData, "concatenated")
     return targets
 
 
@@ -335,7 +367,8 @@ def _object_kwargs(name):
 class Fixture:  # pylint: disable=too-many-instance-attributes
     """Builds the stored instance; everything needed later is kept as uids (never live objects)."""
 
-    def __init__(self, target):
+    def __init__(self, target, slim=False):
+        self.slim = slim  # survey fixtures without the spare partners (windows that do not bind a partner attribute)
         self.target = target
         self.kind = target["kind"]
         self.cls = target["cls"]
@@ -350,6 +383,34 @@ class Fixture:  # pylint: disable=too-many-instance-attributes
         kind, name = self.kind, self.cls
         if kind == "header":
             return
+        if self.variant == "concatenated":
+            dg = groups.DrillholeGroup.create(ws, name="dg")
+            dh = objects.Drillhole.create(ws, parent=dg, name="hole", collar=[445000.0, 5500000.0, 300.0],
+                                          surveys=np.array([[0.0, 10.0, -80.0], [8.0, 20.0, -70.0]]))
+            txt = dh.add_data({"litho": {"from-to": np.array([[0.0, 2.0], [2.0, 5.0]]), "values": np.array(["ovb", "sed"]),
+                                         "type": "text"}})
+            flt = dh.add_data({"assay": {"from-to": np.array([[0.0, 2.0], [2.0, 5.0]]), "values": np.array([1.5, 2.5])}})
+            other = objects.Drillhole.create(ws, parent=dg, name="hole2", collar=[445010.0, 5500000.0, 300.0])
+            other.add_data({"litho": {"from-to": np.array([[0.0, 1.0]]), "values": np.array(["grn"]), "type": "text"}})
+            self.aux["group"] = dg.uid
+            self.aux["hole"] = dh.uid
+            ent = {"Drillhole": dh, "TextData": txt, "FloatData": flt}[name]
+            if isinstance(ent, list):
+                ent = ent[0]
+            self.uid = ent.uid
+            return
+        if kind in ("cmap", "vmap"):
+            holder = objects.Curve.create(ws, vertices=V3.copy(), cells=LOOP.copy(), name="holder")
+            if kind == "vmap":
+                ent = holder.add_data({"ref": {"values": np.array([1, 2, 1], dtype="int32"), "association": "VERTEX",
+                                               "type": "referenced", "value_map": {1: "one", 2: "two"}}})
+            else:
+                ent = holder.add_data({"flt": {"values": np.array([1.0, 2.0, 3.0]), "association": "VERTEX"}})
+                ent.entity_type.color_map = {"name": "regional.TBL", "values": np.core.records.fromarrays(
+                    np.array([[0.0, 1.0], [0, 255], [10, 20], [30, 40], [255, 255]]),
+                    names=["Value", "Red", "Green", "Blue", "Alpha"])}
+            self.uid = ent.uid
+            return
         if kind == "object":
             cls = getattr(objects, name)
             if hasattr(cls, "default_transmitter_type") and "EMSurvey" in "".join(k.__name__ for k in cls.__mro__):
@@ -362,11 +423,12 @@ class Fixture:  # pylint: disable=too-many-instance-attributes
                     self.aux["tx"] = other.uid
                 # one spare partner per role for the entity-valued attributes (two-valued domain: the workspace is
                 # re-read by a fresh reader after every step, so the fixture is kept small)
-                sp_rx = type(rx).create(ws, vertices=V5 + 1, name="rx1")
-                self.aux["rx1"] = sp_rx.uid
-                if other is not None:
-                    sp_tx = type(other).create(ws, vertices=V5 + 11.0, name="tx1")
-                    self.aux["tx1"] = sp_tx.uid
+                if not self.slim:
+                    sp_rx = type(rx).create(ws, vertices=V5 + 1, name="rx1")
+                    self.aux["rx1"] = sp_rx.uid
+                    if other is not None:
+                        sp_tx = type(other).create(ws, vertices=V5 + 11.0, name="tx1")
+                        self.aux["tx1"] = sp_tx.uid
                 f = ent.add_data({"fdata": {"values": np.array([1.5, 2.5, 3.5, 4.5, 5.5]), "association": "VERTEX"}})
                 self.aux["floatdata"] = f.uid
             elif name in ("CurrentElectrode", "PotentialElectrode"):
@@ -376,12 +438,13 @@ class Fixture:  # pylint: disable=too-many-instance-attributes
                 pot.ab_cell_id = np.array([1, 2, 3, 4], dtype="int32")
                 pot.current_electrodes = cur
                 ent = cur if name == "CurrentElectrode" else pot
-                c2 = objects.CurrentElectrode.create(ws, vertices=V5 + 20.0, cells=LINE.copy(), name="cur1")
-                c2.add_default_ab_cell_id()
-                p2 = objects.PotentialElectrode.create(ws, vertices=V5 + 21.0, cells=LINE.copy(), name="pot1")
-                p2.ab_cell_id = np.array([1, 2, 3, 4], dtype="int32")
-                self.aux["cur1"] = c2.uid
-                self.aux["pot1"] = p2.uid
+                if not self.slim:
+                    c2 = objects.CurrentElectrode.create(ws, vertices=V5 + 20.0, cells=LINE.copy(), name="cur1")
+                    c2.add_default_ab_cell_id()
+                    p2 = objects.PotentialElectrode.create(ws, vertices=V5 + 21.0, cells=LINE.copy(), name="pot1")
+                    p2.ab_cell_id = np.array([1, 2, 3, 4], dtype="int32")
+                    self.aux["cur1"] = c2.uid
+                    self.aux["pot1"] = p2.uid
                 self.aux["cur"] = cur.uid
                 self.aux["pot"] = pot.uid
             elif name == "GeoImage":
@@ -439,9 +502,9 @@ class Fixture:  # pylint: disable=too-many-instance-attributes
                                                "type": "referenced", "value_map": {1: "one", 2: "two"}}})
             else:
                 ent = holder.add_data({"flt": {"values": np.array([1.0, 2.0, 3.0]), "association": "VERTEX"}})
-                ent.entity_type.color_map = np.core.records.fromarrays(
+                ent.entity_type.color_map = {"name": "regional.TBL", "values": np.core.records.fromarrays(
                     np.array([[0.0, 1.0], [0, 255], [10, 20], [30, 40], [255, 255]]),
-                    names=["Value", "Red", "Green", "Blue", "Alpha"])
+                    names=["Value", "Red", "Green", "Blue", "Alpha"])}
             ent.entity_type.units = "m"
             ent.entity_type.number_of_bins = 50
             ent.entity_type.description = "a type"
@@ -498,12 +561,34 @@ class Fixture:  # pylint: disable=too-many-instance-attributes
     def fetch(self, ws):
         if self.kind == "header":
             return ws
+        if self.variant == "concatenated" and self.kind == "data":
+            # concatenated data are loaded through their drillhole
+            hole = ws.get_entity(self.aux["hole"])
+            hole = hole[0] if hole else None
+            if hole is None:
+                return None
+            found = [c for c in hole.children if getattr(c, "uid", None) == self.uid]
+            if not found:  # loaded on demand, by name
+                try:
+                    names = list(hole.get_data_list())
+                except Exception:  # pylint: disable=broad-except
+                    names = []
+                for n in names:
+                    try:
+                        found += [d for d in hole.get_data(n) if getattr(d, "uid", None) == self.uid]
+                    except Exception:  # pylint: disable=broad-except
+                        continue
+            return found[0] if found else None
         ent = ws.get_entity(self.uid)
         ent = ent[0] if ent else None
         if ent is None:
             return None
         if self.kind in ("otype", "gtype", "dtype"):
             return ent.entity_type
+        if self.kind == "cmap":
+            return ent.entity_type.color_map
+        if self.kind == "vmap":
+            return ent.entity_type.value_map
         return ent
 
     def type_uid(self, ws):
@@ -522,6 +607,8 @@ class Fixture:  # pylint: disable=too-many-instance-attributes
         try:
             if self.kind == "header":
                 node = base
+            elif self.variant == "concatenated":
+                return None  # attribute records and value columns of the group's concatenated tables: no direct mapping
             elif self.kind in ("object", "group", "data"):
                 node = base[{"object": "Objects", "group": "Groups", "data": "Data"}[self.kind]][br(self.uid)]
             elif self.kind in ("otype", "gtype", "dtype"):
@@ -529,6 +616,8 @@ class Fixture:  # pylint: disable=too-many-instance-attributes
                 node = base["Types"][cont][br(type_uid)]
             elif self.kind == "pg":
                 node = base["Objects"][br(self.aux["holder"])]["PropertyGroups"][br(self.uid)]
+            elif self.kind in ("cmap", "vmap"):
+                return None
             else:
                 return None
         except KeyError:
@@ -630,6 +719,9 @@ def domain(fx: Fixture, ent, attr, cur):  # pylint: disable=too-many-return-stat
         raise Skip("the class of this data is recognised by its name ('UserComments' / 'Visual Parameters', "
                    "workspace/workspace.py:411-426): another name makes every reader load it as plain TextData, so there "
                    "is no valid new value")
+    if fx.variant == "concatenated" and fx.kind == "data" and attr == "name":
+        raise Skip("renaming a concatenated data set is an operation on the group's tables (label, 'Property:<name>' key): "
+                   "decided by C04 (open finding asbuilt:RenameKeepsLabel)")
     if name == "FilenameData" and attr == "public":
         raise Skip("hard-wired to False in the constructor (data/filename_data.py:33): no valid new value (the setter "
                    "nevertheless accepts True and writes it)")
@@ -742,7 +834,15 @@ def domain(fx: Fixture, ent, attr, cur):  # pylint: disable=too-many-return-stat
             return np.core.records.fromarrays(
                 np.array([[0.0, 1.0 + k], [k, 255], [10, 20 + k], [30, 40], [255, 255]]),
                 names=["Value", "Red", "Green", "Blue", "Alpha"])
-        return [cmap(1), cmap(2)], base
+        # a colour map is its table AND its name ("File name" attribute of the dataset); the new maps have as many
+        # entries as the stored one and other names
+        return [{"name": "survey_1.TBL", "values": cmap(1)}, {"name": "survey_2é.TBL", "values": cmap(2)}], base
+    if fx.kind == "cmap" and attr == "values":
+        # NB the getter returns the table transposed (5, n); the setter wants (n, 5)
+        tab = np.asarray(cur, dtype=float).T
+        return [tab + np.array([0.5, 0, 0, 0, 0]), tab + np.array([0.25, 1, 0, 0, 0])], base
+    if fx.kind == "vmap" and attr == "map":
+        return [{0: "Unknown", 1: "unoé", 2: "dos"}, {0: "Unknown", 1: "ein", 2: "zwei", 3: "drei"}], base
     if attr == "value_map":
         if fx.variant != "REFERENCED":
             raise Skip("value_map is meaningful on a REFERENCED type only (exercised on DataType[REFERENCED])")
@@ -855,6 +955,8 @@ def domain(fx: Fixture, ent, attr, cur):  # pylint: disable=too-many-return-stat
             raise Skip(f"{attr}: no current partner")
         if canon(cur) == ("ref", str(fx.uid)):
             raise Skip(f"{attr} of this class is the object itself")
+        if f"{key}1" not in fx.aux:
+            raise Skip("fixture without spare partners")
         return [Ref(fx.aux[f"{key}1"]), Ref(cur.uid)], Ref(cur.uid)
     if cur is None and attr in fx.kwargs and fx.kwargs[attr] is not None:
         # the value given at creation does not show: still exercise the attribute from values of that type
